@@ -263,10 +263,9 @@ def run_scenario(sc):
                     elif kind == "kill":
                         res["killed"] = True
                         net.ev("kill", c=name)
-                        never = loop.create_future()
-
                         async def dead_send(*a, **k):
-                            await never
+                            # a fresh future per call: cancelling one caller must not wake the others
+                            await loop.create_future()
                         c._client.send = dead_send
                         for conn in list(c._client._conns.values()):
                             try:
